@@ -29,6 +29,7 @@ import (
 	"time"
 
 	"github.com/uber-go/tally/v4/internal/identity"
+	"github.com/uber-go/tally/v4/internal/verifhook"
 )
 
 var (
@@ -80,11 +81,14 @@ func (c *counter) value() int64 {
 	//      computed against, otherwise an increment is delivered twice or a
 	//      negative delta is reported.
 	for {
+		verifhook.At("cv_load_prev")
 		prev := atomic.LoadInt64(&c.prev)
+		verifhook.At("cv_load_curr")
 		curr := atomic.LoadInt64(&c.curr)
 		if prev == curr {
 			return 0
 		}
+		verifhook.At("cv_cas")
 		if atomic.CompareAndSwapInt64(&c.prev, prev, curr) {
 			return curr - prev
 		}
@@ -124,21 +128,26 @@ func newGauge(cachedGauge CachedGauge) *gauge {
 }
 
 func (g *gauge) Update(v float64) {
+	verifhook.At("gu_store_val")
 	atomic.StoreUint64(&g.curr, math.Float64bits(v))
+	verifhook.At("gu_store_flag")
 	atomic.StoreUint64(&g.updated, 1)
 }
 
 func (g *gauge) value() float64 {
+	verifhook.At("gr_load")
 	return math.Float64frombits(atomic.LoadUint64(&g.curr))
 }
 
 func (g *gauge) report(name string, tags map[string]string, r StatsReporter) {
+	verifhook.At("gr_swap")
 	if atomic.SwapUint64(&g.updated, 0) == 1 {
 		r.ReportGauge(name, tags, g.value())
 	}
 }
 
 func (g *gauge) cachedReport() {
+	verifhook.At("gr_swap")
 	if atomic.SwapUint64(&g.updated, 0) == 1 {
 		g.cachedGauge.ReportGauge(g.value())
 	}
@@ -504,16 +513,19 @@ func (c *bucketCache) Get(
 ) bucketStorage {
 	id := getBucketsIdentity(buckets)
 
+	verifhook.AtRLock("bc_rlock", &c.mtx)
 	c.mtx.RLock()
 	storage, ok := c.cache[id]
 	if !ok {
 		c.mtx.RUnlock()
+		verifhook.AtLock("bc_lock", &c.mtx)
 		c.mtx.Lock()
 		storage = newBucketStorage(htype, buckets)
 		c.cache[id] = storage
 		c.mtx.Unlock()
 	} else {
 		c.mtx.RUnlock()
+		verifhook.At("bc_hit_check")
 		if !bucketsEqual(buckets, storage.buckets) {
 			storage = newBucketStorage(htype, buckets)
 		}
